@@ -166,24 +166,40 @@ PROPERTIES = {
                         "upper bound on the recipients of PSFB/REMB packets"],
     },
     "C13": {
-        "claim": "Proof for the channel-side bookkeeping of RTCDataChannel: _addBufferedAmount changes bufferedAmount by exactly "
-                 "the given amount and emits 'bufferedamountlow' exactly when the amount goes from above the threshold to at or "
-                 "below it (events observed through a ghost log of emit() calls); _setReadyState stores the state and emits "
-                 "'open' / 'close' exactly on a change into that state, at most one event per call; RTCSctpTransport."
-                 "_data_channel_open registers a channel that already has an id (ValueError exactly if the id is taken) and queues "
-                 "exactly one DATA_CHANNEL_OPEN for it whose bytes are the RFC 8832 layout of the channel's ordering, reliability "
-                 "mode and parameter, and the UTF-8 label and protocol with their byte lengths, for any Unicode label and "
-                 "protocol. Reduced: the receiving side of DCEP, id allocation, forward-only state at the call sites and the "
-                 "accounting across send/flush in RTCSctpTransport are not under contract.",
-        "note": "emit() is modelled as appending the event name to a ghost list; listeners are assumed not to re-enter the "
-                "channel while an event is being emitted (a re-entrant send() from a bufferedamountlow listener is therefore "
-                "outside the model). F-16 (DCEP label length counted in characters) was found by _data_channel_open's layout clause "
-                "and fixed. str.encode('utf8') is an axiomatised total function (A-EXT).",
+        "claim": "Proof for the channel-side bookkeeping of RTCDataChannel and the DCEP / stream-reset steps of RTCSctpTransport that "
+                 "touch it. _addBufferedAmount changes bufferedAmount by exactly the given amount and emits 'bufferedamountlow' "
+                 "exactly when the amount goes from above the threshold to at or below it (events observed through a ghost log of "
+                 "emit() calls); _setReadyState stores the state and emits 'open' / 'close' exactly on a change into that state, at "
+                 "most one event per call; for both, the state a listener observes inside emit() is already the final one and "
+                 "nothing is written after the emit (at_emit / after_emit obligations: the re-entrancy discipline that makes a "
+                 "send() from a bufferedamountlow listener safe). _data_channel_open registers a channel that already has an id "
+                 "(ValueError exactly if the id is taken) and queues exactly one DATA_CHANNEL_OPEN whose bytes are the RFC 8832 "
+                 "layout of the channel's ordering, reliability mode and parameter, and the UTF-8 label and protocol with their "
+                 "byte lengths, for any Unicode label and protocol. _data_channel_receive, for a well-formed DATA_CHANNEL_OPEN on "
+                 "an unused stream, registers a new channel with that id whose label, protocol, ordering and reliability settings "
+                 "are exactly the ones on the wire, in state 'open', whose first event is 'open'; RTCDataChannel.__init__ (remote "
+                 "open) starts 'connecting' with zero amounts and no event. Stream reset: _transmit_reconfig makes a request from "
+                 "the first 135 queued streams exactly when none is outstanding; _data_channel_closed unregisters the id and "
+                 "closes the channel; _receive_reconfig_param, for a response that matches the outstanding request, closes and "
+                 "unregisters that request's streams, retires the request, and - progress - leaves a new outstanding request "
+                 "covering the streams still queued, so a close() issued while an earlier reset is in flight is not stranded. "
+                 "Reduced: id parity/reuse in _data_channel_flush, ACK handling, forward-only state at the call sites, the "
+                 "accounting across send/flush and close() end to end over both peers are not under contract.",
+        "note": "emit() is modelled as appending the event name to a ghost list; the event-log postconditions assume listeners "
+                "do not re-enter, while the at_emit/after_emit obligations are exactly what makes re-entry harmless. "
+                "_data_channel_flush and _send_reconfig_param are assumed contracts (trusted; listed in the evidence): flush keeps "
+                "registered channels, ids once set and only appends events; sending a RE-CONFIG chunk changes no reset "
+                "bookkeeping. _receive_reconfig_param assumes (precondition, not proved at the callers) that the streams of the "
+                "outstanding request are registered channels; a stream listed twice makes it raise KeyError, which the contract "
+                "allows. F-16 (DCEP label length counted in characters) was found by _data_channel_open's layout clause and "
+                "fixed. str.encode/bytes.decode('utf8') are axiomatised total/partial functions (A-EXT).",
         "design_ref": "DESIGN.md 4.13, 9",
-        "trusted_base": COMMON + ["pyee emit(): listeners do not re-enter the emitting object"],
-        "not_decided": ["DCEP OPEN decoding and ACK handling in _data_channel_receive", "id parity and reuse",
-                        "forward-only readyState at the call sites (ACK after close)", "bufferedAmount accounting in "
-                        "_data_channel_send/_data_channel_flush", "re-entrant listeners"],
+        "trusted_base": COMMON + ["pyee emit(): listeners do not re-enter (event-log clauses only)",
+                                  "assumed contracts: RTCSctpTransport._data_channel_flush, RTCSctpTransport._send_reconfig_param"],
+        "not_decided": ["id parity and reuse (_data_channel_flush)", "DATA_CHANNEL_ACK handling and forward-only readyState at the "
+                        "call sites (ACK after close)", "bufferedAmount accounting in _data_channel_send/_data_channel_flush",
+                        "incoming stream reset (StreamResetOutgoingParam branch) and _data_channel_close",
+                        "close() end to end across both peers"],
     },
     "C14": {
         "claim": "Proof for RTCPeerConnection.__validate_description, the gate every setLocalDescription/setRemoteDescription "
